@@ -54,6 +54,7 @@ Definition undo_core (D : sdb) (e : jentry) : sdb :=
   | JLog => mksdb (objs D) (journal D) (dirties D) (Nat.pred (logs D))
   | JSuicide a p pb => match objs D !! a with
                        | Some o => set_obj D a (mkobj pb (dstor o) (ostor o) (tstor o) p) | None => D end
+  | JReset a prev => set_obj D a prev
   end.
 Definition undo_dirt (D : sdb) (e : jentry) : sdb :=
   match dirtied e with
@@ -66,7 +67,7 @@ Proof. reflexivity. Qed.
 
 Lemma undo_core_obs_eq W D1 D2 e : obs_eq W D1 D2 -> obs_eq W (undo_core D1 e) (undo_core D2 e).
 Proof.
-  intros (Hj & Hd & Hl & Ho). destruct e as [a0 prev|a0 k prev|a0| |a0 p pb]; cbn [undo_core].
+  intros (Hj & Hd & Hl & Ho). destruct e as [a0 prev|a0 k prev|a0| |a0 p pb|a0 pv]; cbn [undo_core].
   - pose proof (Ho a0) as H0. destruct (objs D1 !! a0) as [o1|] eqn:E1, (objs D2 !! a0) as [o2|] eqn:E2; cbn in H0; try tauto.
     + unfold obs_eq; cbn. split; [done|]. split; [done|]. split; [done|]. intros a. destruct (decide (a0 = a)) as [->|Hne].
       * rewrite !lookup_insert. cbn. destruct H0 as (Hb&Ht&Hs&H3). split; [done|]. split; [done|]. split; [done|]. exact H3.
@@ -89,6 +90,9 @@ Proof.
       * rewrite !lookup_insert. cbn. destruct H0 as (Hb&Ht&Hs&H3). split; [done|]. split; [done|]. split; [done|]. exact H3.
       * rewrite !lookup_insert_ne by done. apply Ho.
     + by repeat split.
+  - unfold obs_eq; cbn. split; [done|]. split; [done|]. split; [done|]. intros a. destruct (decide (a0 = a)) as [->|Hne].
+    + rewrite !lookup_insert. apply oeq_refl.
+    + rewrite !lookup_insert_ne by done. apply Ho.
 Qed.
 
 Lemma undo_dirt_obs_eq W D1 D2 e : obs_eq W D1 D2 -> obs_eq W (undo_dirt D1 e) (undo_dirt D2 e).
@@ -125,7 +129,7 @@ Definition jlen (D : sdb) : nat := length (journal D).
 Lemma journal_undo D e : journal (undo D e) = journal D.
 Proof.
   rewrite undo_split. unfold undo_dirt, undo_core.
-  destruct e as [a p|a k p|a| |a p pb]; cbn; try destruct (objs D !! a); reflexivity.
+  destruct e as [a p|a k p|a| |a p pb|a pv]; cbn; try destruct (objs D !! a); reflexivity.
 Qed.
 
 Lemma pop_n_len k : forall D, (k <= jlen D)%nat -> jlen (pop_n D k) = (jlen D - k)%nat.
@@ -168,7 +172,7 @@ Proof.
   { intros a Hin. apply Hc. rewrite Hj. by right. }
   split; [|split].
   - intros a Ha. destruct (Hs a Ha) as [o Ho].
-    unfold undo_dirt, undo_core. destruct e as [a0 p|a0 k p|a0| |a0 p pb]; cbn.
+    unfold undo_dirt, undo_core. destruct e as [a0 p|a0 k p|a0| |a0 p pb|a0 pv]; cbn.
     + destruct (objs D !! a0) eqn:E; cbn; [|rewrite Ho; eauto].
       destruct (decide (a0 = a)) as [->|]; [rewrite lookup_insert; eauto|rewrite lookup_insert_ne by done; rewrite Ho; eauto].
     + destruct (objs D !! a0) eqn:E; cbn; [|rewrite Ho; eauto].
@@ -178,9 +182,10 @@ Proof.
     + rewrite Ho; eauto.
     + destruct (objs D !! a0) eqn:E; cbn; [|rewrite Ho; eauto].
       destruct (decide (a0 = a)) as [->|]; [rewrite lookup_insert; eauto|rewrite lookup_insert_ne by done; rewrite Ho; eauto].
+    + destruct (decide (a0 = a)) as [->|]; [rewrite lookup_insert; eauto|rewrite lookup_insert_ne by done; rewrite Ho; eauto].
   - intros a c. unfold undo_dirt.
     assert (Hd : dirties (undo_core (mksdb (objs D) r (dirties D) (logs D)) e) = dirties D).
-    { unfold undo_core. destruct e as [a0 p|a0 k p|a0| |a0 p pb]; cbn; try destruct (objs D !! a0); reflexivity. }
+    { unfold undo_core. destruct e as [a0 p|a0 k p|a0| |a0 p pb|a0 pv]; cbn; try destruct (objs D !! a0); reflexivity. }
     destruct (dirtied e) as [a0|]; cbn; rewrite ?Hd; [|apply Hp].
     destruct (Nat.eqb_spec (Nat.pred (default O (dirties D !! a0))) 0) as [Hz|Hz].
     + intros H. destruct (decide (a0 = a)) as [->|]; [by rewrite lookup_delete in H|].
@@ -317,6 +322,19 @@ Proof.
     rewrite sdb_eta. apply obs_eq_refl.
 Qed.
 
+Lemma reset_ext W D a : wf W D -> ext W D (reset_obj D a).
+Proof.
+  intros Hwf. unfold reset_obj. destruct (objs D !! a) as [o|] eqn:E; [|by apply ext_refl].
+  apply (ext_push W D _ [JReset a o]).
+  - apply wf_set_obj. apply wf_japp; [done|]. intros b Hb. inversion Hb.
+  - reflexivity.
+  - cbn [length pop_n japp journal set_obj objs dirties logs dirtied]. rewrite undo_split.
+    unfold undo_core, undo_dirt; cbn [dirtied objs journal dirties logs set_obj].
+    destruct Hwf as (_ & Hp & _).
+    rewrite (dirt_rt (dirties D) a (Hp a)). rewrite insert_insert. rewrite (insert_id _ _ _ E).
+    rewrite sdb_eta. apply obs_eq_refl.
+Qed.
+
 Lemma add_log_ext W D : wf W D -> ext W D (add_log D).
 Proof.
   intros Hwf. apply (ext_push W D _ [JLog]).
@@ -372,7 +390,7 @@ Proof.
 Qed.
 
 (** * Theorem: reverting to a snapshot undoes any sequence of cache mutations *)
-Inductive cop := OAddBal (a : N) (amt : Z) | OSetState (a : N) (k v : Z) | OLog | OLoad (a : N) | OSuicide (a : N).
+Inductive cop := OAddBal (a : N) (amt : Z) | OSetState (a : N) (k v : Z) | OLog | OLoad (a : N) | OSuicide (a : N) | OReset (a : N).
 Definition cop_apply (W : world) (D : sdb) (op : cop) : sdb :=
   match op with
   | OAddBal a amt => add_bal W D a amt
@@ -380,6 +398,7 @@ Definition cop_apply (W : world) (D : sdb) (op : cop) : sdb :=
   | OLog => add_log D
   | OLoad a => load W D a
   | OSuicide a => suicide D a
+  | OReset a => reset_obj D a
   end.
 
 Lemma cop_ext W D op : wf W D -> ext W D (cop_apply W D op).
@@ -390,6 +409,7 @@ Proof.
   - by apply add_log_ext.
   - rewrite load_id by done. by apply ext_refl.
   - by apply suicide_ext.
+  - by apply reset_ext.
 Qed.
 
 Lemma cops_ext W ops : forall D, wf W D -> ext W D (fold_left (cop_apply W) ops D).
@@ -427,6 +447,7 @@ Qed.
 Fixpoint pure (i : instr) : bool :=
   match i with
   | IPre _ _ _ _ => false
+  | ICreate _ _ _ _ _ _ => false      (* CREATE is covered by the journal theorem (OReset) and by the correspondence run, not yet by the frame theorems *)
   | ICall _ _ _ _ body => forallb pure body
   | _ => true
   end.
@@ -439,6 +460,7 @@ Section instr_induction.
   Hypothesis Hbl : forall a, P (IBalance a).
   Hypothesis Hsd : forall b, P (ISelfdestruct b).
   Hypothesis Hcl : forall t v c r body, Forall P body -> P (ICall t v c r body).
+  Hypothesis Hcr : forall ad v c r sc body, P (ICreate ad v c r sc body).
   Hypothesis Hpr : forall p v c r, P (IPre p v c r).
   Fixpoint instr_ind' (i : instr) : P i :=
     match i with
@@ -453,6 +475,7 @@ Section instr_induction.
                              | [] => List.Forall_nil P
                              | x :: l' => @List.Forall_cons _ P x l' (instr_ind' x) (go l')
                              end) body)
+    | ICreate ad v c r sc body => Hcr ad v c r sc body
     | IPre p v c r => Hpr p v c r
     end.
 End instr_induction.
@@ -476,11 +499,13 @@ Lemma do_call_pure order W D caller target value run :
   (snd (do_call order (W, D) caller target value run) = Fail ->
    obs_eq W (snd (fst (do_call order (W, D) caller target value run))) D).
 Proof.
-  intros Hwf Hrun. unfold do_call. rewrite !(load_id _ _ _ Hwf).
+  intros Hwf Hrun. unfold do_call, do_call_gen. rewrite !(load_id _ _ _ Hwf).
   destruct (negb (value =? 0) && (cbal D caller <? value)).
   { split; [split; [done|by apply ext_refl]|]. intros _. apply obs_eq_refl. }
   assert (HD0 : (if value =? 0 then D else D) = D) by (by destruct (value =? 0)). rewrite HD0.
   rewrite !(load_id _ _ _ Hwf).
+  destruct (negb false && match objs D !! target with None => true | Some _ => false end && (value =? 0) && negb (is_precompile target)).
+  { split; [split; [done|by apply ext_refl]|]. intros _. apply obs_eq_refl. }
   set (D2 := match objs D !! target with
              | Some _ => D
              | None => japp (set_obj D target (mkobj 0 ∅ ∅ ∅ false)) (JCreate target)
@@ -518,7 +543,7 @@ Qed.
 Theorem pure_instr_ext : forall i, pure i = true ->
   forall order o self W D, wf W D -> pure_step W D (exec_instr order o self i (W, D)).
 Proof.
-  induction i as [k v| | |a|b|t v c r body IH|p v c r] using instr_ind'; intros Hp order o self W D Hwf;
+  induction i as [k v| | |a|b|t v c r body IH|ad v c r sc body|p v c r] using instr_ind'; intros Hp order o self W D Hwf;
     cbn [exec_instr].
   - split; [done|]. by apply set_state_ext.
   - split; [done|]. by apply add_log_ext.
@@ -535,6 +560,7 @@ Proof.
     apply (pure_step_seq W D1 (exec_instr order o t x (W, D1))).
     + by apply IHx.
     + intros D2 Hwf2. by apply IHb.
+  - discriminate.
   - discriminate.
 Qed.
 
